@@ -9,7 +9,7 @@ from traits.trait_set_object import TraitSet
 NPOOL = 3
 
 
-def make_node_class(eq=False):
+def make_node_class(eq=False, falsy=False):
     class Node(HasTraits):
         value = Int
         tagged = Int(tag=True)
@@ -33,6 +33,10 @@ def make_node_class(eq=False):
         # is common); identity is what observation must go by
         Node.__eq__ = lambda self, other: isinstance(other, Node)
         Node.__hash__ = lambda self: 7
+    if falsy:
+        # collection-like models are falsy when empty; observation must
+        # never go by truthiness
+        Node.__len__ = lambda self: 0
     return Node
 
 
@@ -40,11 +44,16 @@ _SHARED = None
 
 
 _SHARED_EQ = None
+_SHARED_FALSY = None
 
 
 def make_pool(fresh_class=False, eq=False):
-    global _SHARED, _SHARED_EQ
-    if eq:
+    global _SHARED, _SHARED_EQ, _SHARED_FALSY
+    if eq == "falsy":
+        if _SHARED_FALSY is None:
+            _SHARED_FALSY = make_node_class(falsy=True)
+        cls = _SHARED_FALSY
+    elif eq:
         if _SHARED_EQ is None:
             _SHARED_EQ = make_node_class(eq=True)
         cls = _SHARED_EQ
@@ -368,8 +377,6 @@ def fingerprint(objs):
         ent = [sorted(notifier_fp(n) for n in (o._notifiers(False) or []))]
         names = sorted(set(o.trait_names()) | set(o._instance_traits()))
         for name in names:
-            if name in ("trait_added", "trait_modified"):
-                continue
             t = o._trait(name, 0)
             if t is None:
                 continue
